@@ -9,6 +9,7 @@ import (
 	"crypto/sha256"
 	"encoding/base64"
 	"encoding/hex"
+	"errors"
 	"fmt"
 	"io"
 	"log"
@@ -16,7 +17,6 @@ import (
 	"net/http"
 	"net/http/httptest"
 	"os"
-	"os/exec"
 	"path/filepath"
 	"sort"
 	"strings"
@@ -89,68 +89,6 @@ func freePort() string {
 	}
 	defer l.Close()
 	return fmt.Sprint(l.Addr().(*net.TCPAddr).Port)
-}
-
-// parentMain re-executes this binary with the engine's environment set.
-func parentMain() int {
-	root, err := os.MkdirTemp("", "verif-c08-")
-	if err != nil {
-		panic(err)
-	}
-	defer os.RemoveAll(root)
-	l := newLayout(root)
-	for _, d := range []string{l.flows, l.quotas, l.pparams, filepath.Dir(l.userMetrics), filepath.Dir(l.defMet), filepath.Dir(l.ppConfig)} {
-		must(os.MkdirAll(d, 0o755))
-	}
-	repo := os.Getenv("VERIF_REPO")
-	if repo == "" {
-		repo = "/repo"
-	}
-	def, err := os.ReadFile(filepath.Join(repo, "proxy", "metrics.yaml"))
-	must(err)
-	must(os.WriteFile(l.defMet, def, 0o644))
-	must(os.WriteFile(filepath.Join(root, "discovery.json"), []byte("{}"), 0o644))
-	env := append(os.Environ(),
-		childEnv+"=1", rootEnv+"="+root,
-		"LUNAR_STREAMS_ENABLED=true",
-		"HAPROXY_MANAGE_ENDPOINTS_PORT="+freePort(),
-		"LUNAR_HEALTHCHECK_PORT="+freePort(),
-		"LUNAR_PROXY_FLOW_DIRECTORY="+l.flows,
-		"LUNAR_PROXY_QUOTAS_DIRECTORY="+l.quotas,
-		"LUNAR_FLOWS_PATH_PARAM_DIR="+l.pparams,
-		"LUNAR_FLOWS_PATH_PARAM_CONFIG="+l.ppConfig,
-		"LUNAR_PROXY_CONFIG="+l.gateway,
-		"LUNAR_PROXY_METRICS_CONFIG="+l.userMetrics,
-		"LUNAR_PROXY_METRICS_CONFIG_DEFAULT="+l.defMet,
-		"DISCOVERY_STATE_LOCATION="+filepath.Join(root, "discovery.json"),
-		"REMEDY_STATE_LOCATION="+filepath.Join(root, "remedy.json"),
-		"LUNAR_PROXY_PROCESSORS_DIRECTORY="+filepath.Join(repo, "proxy/src/services/lunar-engine/streams/processors/registry"),
-		"LUNAR_HUB_URL=", "LUNAR_API_KEY=", "TENANT_NAME=verif",
-	)
-	self, err := os.Executable()
-	if err != nil {
-		self = os.Args[0]
-	}
-	cmd := exec.Command(self, os.Args[1:]...)
-	cmd.Env = env
-	cmd.Dir = root // stray relative files written by the engine land in the scratch tree
-	cmd.Stdin, cmd.Stdout, cmd.Stderr = os.Stdin, os.Stdout, os.Stderr
-	// -out may be relative to the original cwd
-	if wd, err := os.Getwd(); err == nil {
-		for i, a := range cmd.Args {
-			if (a == "-out" || a == "-replay") && i+1 < len(cmd.Args) && !filepath.IsAbs(cmd.Args[i+1]) {
-				cmd.Args[i+1] = filepath.Join(wd, cmd.Args[i+1])
-			}
-		}
-	}
-	if err := cmd.Run(); err != nil {
-		if ee, ok := err.(*exec.ExitError); ok {
-			return ee.ExitCode()
-		}
-		fmt.Fprintln(os.Stderr, "c08: child failed:", err)
-		return 2
-	}
-	return 0
 }
 
 func must(err error) {
@@ -249,6 +187,8 @@ type world struct {
 	rd      *routing.HandlingDataManager
 	handler routing.MessageHandler
 	seq     int
+
+	transportErrors int // admin requests that died in transport since the child started
 }
 
 var theWorld *world
@@ -432,14 +372,39 @@ func (w *world) probe(names []string) string {
 	return strings.Join(parts, ",")
 }
 
+// do performs one admin request. A transport failure (the handler panicked and net/http dropped the
+// connection, the server went away, ...) is an observable outcome, not a harness failure: status 0
+// and the class of the error.
 func (w *world) do(method, path string, body []byte) (int, string) {
 	req, err := http.NewRequest(method, w.srv.URL+path, bytes.NewReader(body))
 	must(err)
 	resp, err := http.DefaultClient.Do(req)
-	must(err)
+	if err != nil {
+		w.transportErrors++
+		return 0, transportClass(err)
+	}
 	defer resp.Body.Close()
-	b, _ := io.ReadAll(resp.Body)
+	b, err := io.ReadAll(resp.Body)
+	if err != nil {
+		w.transportErrors++
+		return 0, transportClass(err)
+	}
 	return resp.StatusCode, string(b)
+}
+
+func transportClass(err error) string {
+	m := err.Error()
+	switch {
+	case errors.Is(err, io.EOF) || errors.Is(err, io.ErrUnexpectedEOF) || strings.Contains(m, "EOF"):
+		return "eof"
+	case strings.Contains(m, "connection reset") || strings.Contains(m, "broken pipe"):
+		return "reset"
+	case strings.Contains(m, "connection refused"):
+		return "refused"
+	case strings.Contains(m, "timeout") || strings.Contains(m, "deadline"):
+		return "timeout"
+	}
+	return "other"
 }
 
 // ------------------------------------------------------------------ content tokens <-> bytes
